@@ -54,6 +54,7 @@ func hxs(s string) string { return hx([]byte(s)) }
 // worker pool (real code, crash isolated)
 
 type workerProc struct {
+	tmp    string // the worker's scratch directory (the parent owns it)
 	cmd    *exec.Cmd
 	in     io.WriteCloser
 	out    *bufio.Reader
@@ -65,8 +66,12 @@ func startWorker() (*workerProc, error) {
 	if err != nil {
 		return nil, err
 	}
+	tmp, err := os.MkdirTemp("", "verifh-")
+	if err != nil {
+		return nil, err
+	}
 	cmd := exec.Command(exe, "worker")
-	cmd.Env = append(os.Environ(), "GOMEMLIMIT=1500MiB", "GOTRACEBACK=single", "GOMAXPROCS=2")
+	cmd.Env = append(os.Environ(), "GOMEMLIMIT=1500MiB", "GOTRACEBACK=single", "GOMAXPROCS=2", "VERIF_WORKER_TMP="+tmp)
 	in, _ := cmd.StdinPipe()
 	outp, _ := cmd.StdoutPipe()
 	var eb bytes.Buffer
@@ -74,7 +79,7 @@ func startWorker() (*workerProc, error) {
 	if err := cmd.Start(); err != nil {
 		return nil, err
 	}
-	return &workerProc{cmd: cmd, in: in, out: bufio.NewReaderSize(outp, 1<<20), stderr: &eb}, nil
+	return &workerProc{tmp: tmp, cmd: cmd, in: in, out: bufio.NewReaderSize(outp, 1<<20), stderr: &eb}, nil
 }
 
 type limitedWriter struct {
@@ -101,6 +106,9 @@ func (w *workerProc) kill() {
 		w.cmd.Process.Kill()
 	}
 	w.cmd.Wait()
+	if w.tmp != "" {
+		os.RemoveAll(w.tmp)
+	}
 }
 
 // runWorkers executes every case on the real code; results go to c.GoOut and c.Oracle.
